@@ -430,6 +430,7 @@ fn point(p: &Value) -> f32 {
         "k8" => p["v"].as_i64().unwrap() as f32 / 8.0,
         "pow2" => s * (2.0f64.powi(p["e"].as_i64().unwrap() as i32) as f32),
         "max" => s * f32::MAX,
+        "max34" => s * (0.75 * f32::MAX),
         "minnormal" => s * f32::MIN_POSITIVE,
         "zero" => s * 0.0,
         k => panic!("harness: unknown point kind {}", k),
